@@ -24,7 +24,7 @@ ASSUMPTIONS = ["identifier classes are read from the bundled licenses.json / exc
 MIN_NONTRIVIAL = {"quick": 1500, "thorough": 30000}
 COLLS = ["missing_licenses", "unused_licenses", "bad_licenses", "deprecated_licenses", "licenses_without_extension", "used_licenses"]
 
-USES = ["alone", "plus", "and", "or", "with", "paren", "tags", "unused"]
+USES = ["alone", "plus", "and", "or", "with", "paren", "tags", "absorbed", "unused"]
 PROVS = ["absent", "txt", "md", "noext", "sub", "plusfile", "withlicense"]
 HELPER = "MIT"
 HELPER_EXC = "LLVM-exception"
@@ -93,12 +93,32 @@ def build_recipe(case, ctx):
                   "sources": [{"carrier": "header", "copyrights": ["2020 H"], "exprs": [("with", HELPER, HELPER_EXC)], "toml_dir": ""}]})
     U.add(HELPER_EXC)
     n = 0
+    forced = {}
+    if case["k"] % 4 == 0:
+        # SPDX identifiers that contain another identifier followed by a dot: provided without extension they must not be
+        # taken for the shorter one plus an "extension"
+        from pathlib import PurePath
+
+        sp_all = trees.spdx_lists()["all"]
+        dotted = sorted(i for i in sp_all if PurePath(i).suffix and PurePath(i).stem in sp_all)
+        pick = dotted[(case["k"] // 4) % len(dotted)]
+        ids = [(i, c) for i, c in ids if i not in (pick, PurePath(pick).stem)]
+        ids += [(pick, "deprecated" if sp_all[pick] else "current")]
+        forced[pick] = ("alone", "noext")
+        if (case["k"] // 4) % 2 == 0:
+            stem = PurePath(pick).stem
+            ids += [(stem, "deprecated" if sp_all[stem] else "current")]
+            forced[stem] = ("alone", "txt")
     for ident, cls in ids:
         use = USES[(case["k"] + n) % len(USES)] if rng.random() < 0.5 else rng.choice(USES)
         prov = PROVS[(case["k"] * 3 + n) % len(PROVS)] if rng.random() < 0.5 else rng.choice(PROVS)
+        if ident in forced:
+            use, prov = forced[ident]
         n += 1
         # --- legality of the cell
         plus_ok = cls in ("current", "deprecated") and not ident.endswith("+")
+        if cls == "licenseref" and use == "plus" and prov in ("txt", "md", "sub", "withlicense"):
+            plus_ok = True  # a provided LicenseRef- used as 'LicenseRef-x+' (the unprovided case stays grey)
         if use == "plus" and not plus_ok:
             use = "alone"
         if cls == "exception":
@@ -137,6 +157,12 @@ def build_recipe(case, ctx):
                 U.add("LicenseRef-helper")
             elif use == "tags":
                 exprs = [("id", HELPER), ("id", ident)]
+                used_as = ident
+                if carrier == "dep5":
+                    carrier = "header"
+            elif use == "absorbed":
+                # one expression logically absorbs the other (A AND (A OR X) == A): X is used all the same
+                exprs = [("id", HELPER), ("or", [("id", HELPER), ("id", ident)])]
                 used_as = ident
                 if carrier == "dep5":
                     carrier = "header"
